@@ -395,6 +395,24 @@ pub fn families() -> Vec<Box<dyn Family>> {
             },
         ),
         family(
+            "asymmetric_blocks",
+            "a block of 10..6000 lines replaced by 10..6000 unrelated lines between common head and tail x {Myers, Patience} x 2 renderings",
+            false,
+            1,
+            |cfg| if cfg.tiny { 1 } else { cfg.tier.pick(6, 48) },
+            |idx, cfg, out| {
+                let mut rng = Rng::for_case(cfg.seed, "c05.asymmetric_blocks", idx);
+                let (l1, l2) = if cfg.tiny { (5, 1) } else { (*rng.pick(&text_gen::BLOCK_SIZES), *rng.pick(&text_gen::BLOCK_SIZES)) };
+                let (head, tail) = (rng.below(200), rng.below(200));
+                let (a, b) = text_gen::asymmetric_lines_pair(&mut rng, head, tail, l1, l2);
+                let alg = ALGS[rng.below(2)];
+                out.sample(|| format!("alg={} {} head lines, block of {} lines replaced by {} lines, {} tail lines", alg_name(alg), head, l1, l2, tail));
+                out.nontrivial(&(alg_name(alg), head, tail, l1, l2));
+                let renders = [Render { radius: 3, header: true, hint: true }, Render { radius: 0, header: false, hint: true }];
+                case(cfg, alg, &a, &b, &renders, out);
+            },
+        ),
+        family(
             "lines_exh",
             "exhaustive small line texts: every pair of texts of up to 3 (thorough 4) lines over the line pool {a LF, b LF, a CRLF, a CR} with the last line optionally unterminated x 3 algorithms x radius {0,1,MAX} x header on/off",
             true,
